@@ -6,6 +6,7 @@ pub mod fuzz_support;
 pub mod fuzzdec;
 pub mod fuzzrun;
 pub mod gen_vm;
+pub mod iters;
 pub mod model;
 pub mod props;
 pub mod rngs;
